@@ -333,7 +333,7 @@ def enum_dfs(tier, seed):
                 bound = 2 if (n <= 2 and nsub == 1 and not futures) else 1
                 if tier == "thorough" and n <= 2:
                     bound = 2
-                yield dict(cfg=cfg, bound=bound, max_schedules=6000 if tier == "quick" else 120000)
+                yield dict(cfg=cfg, bound=bound, max_schedules=1200 if tier == "quick" else 120000)
 
 
 def run_dfs(d):
@@ -362,7 +362,7 @@ def run_dfs(d):
 
 
 SUBCHECKS = [
-    SubCheck("random", run_case, strategy=st_case, quick=4000, thorough=120000),
-    SubCheck("divide", run_divide, strategy=st_divide_case, quick=1500, thorough=40000),
+    SubCheck("random", run_case, strategy=st_case, quick=3000, thorough=120000),
+    SubCheck("divide", run_divide, strategy=st_divide_case, quick=1000, thorough=40000),
     SubCheck("dfs", run_dfs, enumerate=enum_dfs),
 ]
